@@ -471,6 +471,10 @@ End WithHash.
 Arguments rs_state {St} _.
 Arguments rs_hist {St} _.
 Arguments Build_rstate {St} _ _.
+Arguments cp_tick {St} _.
+Arguments cp_hash {St} _.
+Arguments cp_state {St} _.
+Arguments Build_cpoint {St} _ _ _.
 
 (* ------------------------------------------------------------------------------------------------ single-field edits *)
 (* The retained fields of an entry.  [Fpatch] / [Fparents] / [Freceipt] / [Foutputs] stand for ANY change inside the
